@@ -16,8 +16,10 @@ CHECKS = {
     "C08": "mc.checks.c08",
     "C09": "mc.checks.c09",
     "C10": "mc.checks.c10",
+    "C16": "mc.checks.c16",
     "C17": "mc.checks.c17",
     "C19": "mc.checks.c19",
+    "C20": "mc.checks.c20",
 }
 
 
